@@ -981,17 +981,40 @@ func (e *nestEnv) opPop() {
 	if detached {
 		before = e.dumpRoot()
 	}
+	// the caller may keep ONE of the popped child containers alive for a while instead of disposing
+	// of it at once (C11: a handle that outlives the removal of its container)
+	var keep *node
+	if e.rng.Intn(2) == 0 {
+		var kids []*node
+		for _, v := range n.elems {
+			if v.child != nil {
+				kids = append(kids, v.child)
+			}
+		}
+		for _, k := range e.sortedKeys(n) {
+			if c := n.kv[k].child; c != nil {
+				kids = append(kids, c)
+			}
+		}
+		if len(kids) > 0 {
+			keep = kids[e.rng.Intn(len(kids))]
+		}
+	}
+	keepArg := ""
+	if keep != nil {
+		keepArg = fmt.Sprintf(" keep=%d", keep.h)
+	}
 	var got []atree.Storable
 	var obs []string
 	var err error
 	if n.kind == 'a' {
-		w.L("OP apop h=%d", n.h)
+		w.L("OP apop h=%d%s", n.h, keepArg)
 		err = n.arr.PopIterate(func(s atree.Storable) {
 			got = append(got, s)
 			obs = append(obs, renderStorable(s))
 		})
 	} else {
-		w.L("OP mpop h=%d", n.h)
+		w.L("OP mpop h=%d%s", n.h, keepArg)
 		err = n.mp.PopIterate(func(k, v atree.Storable) {
 			got = append(got, k, v)
 			obs = append(obs, renderStorable(k)+","+renderStorable(v))
@@ -1008,7 +1031,14 @@ func (e *nestEnv) opPop() {
 	e.st.Hit(fmt.Sprintf("pop-%c-depth%d-detached=%v", n.kind, e.depth(n), detached))
 	// the caller disposes of everything it was handed (not through the recording storage: the
 	// effects of the disposal are the caller's, not the operation's)
+	keptStandalone := false
 	for _, s := range got {
+		if keep != nil {
+			if id, kind, ok := storableContainerID(s); ok && fmt.Sprintf("0x%x.%d", id.AddressAsUint64(), id.IndexAsUint64()) == keep.vid {
+				keptStandalone = kind == 'r'
+				continue
+			}
+		}
 		if id, ok := s.(atree.SlabIDStorable); ok {
 			if _, isCont := e.nodeByID(atree.SlabID(id)); !isCont {
 				w.L("DSP id=%s", hx.IDStr(atree.SlabID(id)))
@@ -1020,7 +1050,29 @@ func (e *nestEnv) opPop() {
 	if n.kind == 'm' {
 		n.kv = map[hx.TV]sval{}
 	}
+	if keep != nil {
+		keep.parent = nil // its subtree survives the disposal of the rest
+	}
 	e.killDescendants(n)
+	if keep != nil {
+		e.st.Hit(fmt.Sprintf("pop-keep-standalone=%v", keptStandalone))
+		if keptStandalone {
+			// a popped standalone child is simply a detached container from now on
+			e.detached = append(e.detached, keep)
+		} else {
+			// a popped INLINED child lives only in memory; its handle still carries the closure of
+			// its former parent.  Mutating it must not touch the (emptied) former parent.
+			beforeRoot, beforeN := e.dumpRoot(), e.countOf(n)
+			e.mutatePlain(keep, "C11")
+			if after := e.dumpRoot(); after != beforeRoot || e.countOf(n) != beforeN {
+				e.violation("C11", fmt.Sprintf("mutation through the handle of container %d, handed out by PopIterate of container %d, changed the former parent", keep.h, n.h))
+			}
+			e.deepRemoveValueIn(e.ps, keep.value(0))
+			w.L("FORGET h=%d", keep.h)
+			keep.live = false
+			e.killDescendants(keep)
+		}
+	}
 	if detached {
 		if after := e.dumpRoot(); after != before {
 			e.violation("C11", fmt.Sprintf("PopIterate through the handle of detached container %d changed the former parent", n.h))
@@ -1045,6 +1097,32 @@ func (e *nestEnv) opPop() {
 			e.mutatePlain(n, prop)
 		}
 	}
+}
+
+// storableContainerID: the slab ID a popped storable denotes if it is (a wrapper around) an inlined
+// slab ('i') or a slab reference ('r').
+func storableContainerID(s atree.Storable) (atree.SlabID, byte, bool) {
+	for {
+		ws, ok := s.(atree.WrapperStorable)
+		if !ok {
+			break
+		}
+		s = ws.UnwrapAtreeStorable()
+	}
+	switch x := s.(type) {
+	case atree.SlabIDStorable:
+		return atree.SlabID(x), 'r', true
+	case atree.Slab:
+		return x.SlabID(), 'i', true
+	}
+	return atree.SlabID{}, 0, false
+}
+
+func (e *nestEnv) countOf(n *node) uint64 {
+	if n.kind == 'a' {
+		return n.arr.Count()
+	}
+	return n.mp.Count()
 }
 
 func (e *nestEnv) nodeByID(id atree.SlabID) (*node, bool) {
